@@ -60,7 +60,7 @@ func oracle(c Case, o *h.Obs) *h.Fail {
 		f.NoShrink = v.Clause == "no-termination"
 		return f
 	}
-	if v.Cfg.FinallyAfterAbrupt || v.Cfg.TrySeparate {
+	if v.Cfg.FinallyAfterAbrupt || v.Cfg.TryGroups != 0 {
 		o.Class("matched_alternative_parameterisation")
 	}
 	return nil
